@@ -88,9 +88,8 @@ TRevertPanic == /\ EvPanic("Revert")
 
 \* the block is sealed (MergeChangeLogs, Finalise), replayed on the parent state (RebuildAll, Finalise), saved and
 \* re-read, and built a second time from the surviving setter calls only.
-Drop(o, F) == [a \in DOMAIN o |-> [f \in DOMAIN o[a] \ F |-> o[a][f]]]
+Drop(o, F) == DropF(o, F)
 NoRoots(o) == Drop(o, Roots)
-RootLog(f) == CASE f = "rs" -> "StorageRootLog" [] f = "rac" -> "AssetCodeRootLog" [] f = "rai" -> "AssetIdRootLog" [] f = "req" -> "EquityRootLog"
 \* deviations after which st is not the state the surviving writes produce (the Seal comparisons need that state)
 StateDevs == {"Dev_UndoCodeDropsPreviousCode", "Dev_UndoSuicideShallow"}
 \* ... Dev_UndoEventNoop only leaves reverted events in GetEvents()
@@ -100,23 +99,10 @@ RedoDeviates(D0) ==
   LET Ds == {D \in (SUBSET (AllowedDev \cap RedoDevs)) \ D0 : NoRoots(E.redo) = NoRoots(Redone(base, journal, zero, D))} IN
   /\ Ds # {}
   /\ \A d \in Smallest(Ds) : UseDev(d)
-\* Two projections are the same: every getter agrees and every root agrees - but for the listed deviations, each
-\* accepted only on a ghost pair of its kind and (where the outcome is predictable) only with the predicted values:
-\*   Dev_EmptyWriteLeavesEmptyRoot            one side has the hash of the empty trie where the other has the zero root
-\*   Dev_UndoAssetProfileKeyLeavesEmptyEntry  the asset-code roots differ (an entry "" against no entry)
-Same(x, y) ==
-  /\ NoRoots(x) = NoRoots(y)
-  /\ LET D  == {p \in (DOMAIN x) \X Roots : p[2] \in DOMAIN x[p[1]] /\ x[p[1]][p[2]] # y[p[1]][p[2]]}
-         De == {p \in D : p \in ghost /\ {x[p[1]][p[2]], y[p[1]][p[2]]} = {E.emptyroot, zero}}
-         Dp == {p \in D \ De : p[2] = "rac" /\ <<p[1], "afrkey">> \in ghost}
-     IN /\ D \subseteq De \cup Dp
-        /\ De # {} => "Dev_EmptyWriteLeavesEmptyRoot" \in AllowedDev /\ UseDev("Dev_EmptyWriteLeavesEmptyRoot")
-        /\ Dp # {} => "Dev_UndoAssetProfileKeyLeavesEmptyEntry" \in AllowedDev /\ UseDev("Dev_UndoAssetProfileKeyLeavesEmptyEntry")
+\* two projections are the same up to the listed root deviations (JournalOps.RootDevs)
+Same(x, y) == LET ds == RootDevs(x, y, ghost, zero, E.emptyroot) IN ds \subseteq AllowedDev /\ \A d \in ds : UseDev(d)
 SealStrict ==
-  LET pairs == {p \in (DOMAIN E.obs) \X Roots : p[2] \in DOMAIN E.obs[p[1]]}
-      RootDiff == {p \in pairs : E.obs[p[1]][p[2]] # E.clean[p[1]][p[2]]}
-      notextra(x) == ~\E p \in RootDiff : x.a = p[1] /\ x.t = RootLog(p[2])
-      touched == {E.pub[i].a : i \in 1..Len(E.pub)}
+  LET touched == {E.pub[i].a : i \in 1..Len(E.pub)}
   IN
   \* the other run executed exactly the surviving entries of the spec's journal
   /\ E.cerr = ""
@@ -124,7 +110,7 @@ SealStrict ==
   \* reverted work leaves no trace: same getters and roots ...
   /\ Same(Drop(E.clean, EvMask), Drop(E.obs, EvMask))
   \* ... and the same published logs (type, version, hash; in order), but for the root logs of roots that differ
-  /\ SelectSeq(E.pub, notextra) = SelectSeq(E.cleanpub, notextra)
+  /\ SansDifferingRootLogs(E.pub, E.obs, E.clean) = SansDifferingRootLogs(E.cleanpub, E.obs, E.clean)
   \* the block can be saved, and what is saved is what was executed (Save writes the accounts with published logs)
   /\ \/ /\ E.serr = ""
         /\ \A a \in touched : [f \in DOMAIN E.saved[a] \ Volatile |-> E.saved[a][f]] = [f \in DOMAIN E.obs[a] \ Volatile |-> E.obs[a][f]]
